@@ -33,6 +33,7 @@ def rules(ctx):
     c017(ctx)
     c017_closed(ctx)
     c019(ctx)
+    c0110(ctx)
     c018(ctx)
     # a key (or tombstone) missing from an SST's bloom filter makes Sst::load miss it and the search fall through to
     # an older version: the builder-side accumulation rule of C10.2 is a necessary condition of point reads too
@@ -269,6 +270,27 @@ def c019(ctx):
                   "recover hands every file of a strongly connected component to the same level without looking at the component's size: a compaction "
                   "output whose timestamp range straddles that of a newer, key-overlapping file lands in that file's level after a clean reopen, sorts "
                   "before it by first key, and a point read stops at its older version (l-OLD instead of l-NEW)", pt=p_)
+
+
+def c0110(ctx):
+    R = "C01.10"
+    ctx.declare(R, "a file that enters the tree (a flushed memtable, an ingested SST) holds the newest data and enters at level 0, the level that is "
+                   "consulted first; placing it deeper is safe only above no overlapping file, which is not what a bottom-up search for a hole finds")
+    f = ctx.fn(R, "lsmtk::tree::Version::ingest")
+    if not f:
+        return
+    stores = [p_ for p_ in P.call_points(f, r"alloc::vec::Vec.*::(push|insert)$") if "SstMetadata" in str(P.term_at(f, p_).get("ga"))]
+    ctx.floor(R, "Version::ingest: places where the new file joins a level", len(stores), 1)
+    for p_ in stores:
+        t = P.term_at(f, p_)
+        idx = None
+        for s_ in P.origins(f, t["args"][0]):
+            if s_["k"] == "call" and re.search(r"IndexMut.*::index_mut$|index::index_mut$", s_["callee"]) and len(s_["t"]["args"]) == 2:
+                o = s_["t"]["args"][1]
+                idx = o["c"].get("v") if o.get("k") == "const" else "computed"
+        ctx.check(R, f, "enters-at-level-0", idx == 0, "the new file is pushed onto levels[0]",
+                  "Version::ingest puts the new file into levels[%s]: a file that holds the newest versions can land beneath an older overlapping file, "
+                  "and a point read stops at the older version (not shown safe; accepted form: levels[0])" % idx, pt=p_)
 
 
 def false_edges_of(f, callee_pat, arg_pred=None):
